@@ -563,10 +563,75 @@ def _first_diff(a, b, path=""):
     return None if a == b else "%s: %r vs %r" % (path, a, b)
 
 
+def enum_include_orders():
+    """module m including three submodules a, b, c: every order of the include list x every acyclic set of
+    cross-includes among them (25 graphs: a->b, a->c, b->c, diamonds, chains ...), definitions in every submodule, used
+    from every part that reaches them; plus the module listing only two of them when the third is reached through one"""
+    subs = ["a", "b", "c"]
+    pairs = [(x, y) for x in subs for y in subs if x != y]
+
+    def closure(edges, x):
+        seen, todo = [], [x]
+        while todo:
+            u = todo.pop()
+            for (p_, q_) in edges:
+                if p_ == u and q_ not in seen:
+                    seen.append(q_)
+                    todo.append(q_)
+        return seen
+    fams = []
+    for mask in range(1 << len(pairs)):
+        edges = [pairs[i] for i in range(len(pairs)) if mask >> i & 1]
+        if any(x in closure(edges, x) for x in subs):
+            continue
+        for perm in itertools.permutations(subs):
+            lists = [list(perm)]
+            for drop in subs:          # rely on a nested include for one of them
+                rest = [x for x in perm if x != drop]
+                if any(drop in closure(edges, x) for x in rest):
+                    lists.append(rest)
+            for incl in lists:
+                for rich in (True, False):
+                    parts = {}
+                    for x in subs:
+                        reach = closure(edges, x)
+                        items = [("grouping", 100 + subs.index(x), "g" + x, [("leaf", "in-" + x, "string", None, None, None, None)])]
+                        if rich:
+                            items.append(("typedef", "t" + x, "string"))
+                            items.append(("identity", "i" + x, [PFX + ":i" + y for y in reach[:1]]))
+                        body = [("uses", "g" + y) for y in [x] + reach]
+                        if rich:
+                            body += [("leaf", "l%s%s" % (x, y), "t" + y, None, None, None, None) for y in [x] + reach]
+                        items.append(("container", "c" + x, None, body))
+                        parts[x] = (items, [y for (p_, y) in edges if p_ == x])
+                    top = [("uses", "g" + y) for y in subs]
+                    if rich:
+                        top += [("leaf", "lm" + y, PFX + ":t" + y, None, None, None, None) for y in subs]
+                        top += [("leaf", "ri" + y, "identityref { base %s:i%s; }" % (PFX, y), None, None, None, None) for y in subs]
+                    mitems = [("container", "top", None, top)]
+                    split = [_mod_dict(MOD, None, [MOD + x for x in incl], mitems, [])]
+                    for x in subs:
+                        split.append(_mod_dict(MOD + x, MOD, [MOD + y for y in parts[x][1]], parts[x][0], []))
+                    order, seen = [], set()
+
+                    def dfs(incs):
+                        for y in incs:
+                            if y not in seen:
+                                seen.add(y)
+                                order.append(y)
+                                dfs(parts[y][1])
+                    dfs(incl)
+                    its = list(mitems)
+                    for y in order:
+                        its += parts[y][0]
+                    fams.append(dict(rich=rich, split=split, unsplit=[_mod_dict(MOD, None, [], its, [])]))
+    return fams
+
+
 def gen_include(tier, rnd):
     """-> list of dict(rich, split, unsplit)"""
-    fams = []
-    for i in range(700 if tier == "quick" else 8000):
+    fams = enum_include_orders()
+    for i in range(500 if tier == "quick" else 8000):
         rich = i % 3 != 0
         items, augments = gen_family(rnd, rich)
         parts = split_family(rnd, items, augments)
@@ -620,6 +685,131 @@ def run_include(res, tier, rnd, stats):
                                       dict(kind="include-model", case=case, go_case=gl[:0] + (go_lines[2 * k] if which == "split" else go_lines[2 * k + 1])))
             mi += 2
     return len(go_lines) + len(ml_lines), fams, go_lines
+
+
+# ------------------------------------------------------- references through imports bind to the right revision
+# (implementation only)  Two or three revisions of module f are loaded, each defining identities, a typedef and a grouping of
+# its own (marked with the revision), some only in an old revision, some in a submodule only an old revision includes.
+# User modules import f with and without revision-date and refer to them.  Every reference must resolve to the
+# definition of exactly the revision the import denotes, in every load order.
+REVS = ["2018-01-01", "2019-01-01", "2020-01-01"]
+
+
+def gen_revfam(rnd):
+    revs = REVS[rnd.choice([0, 1]):]
+    leg_of = rnd.choice(revs[:-1] + [None])            # the revision that includes the legacy submodule
+    texts, expect = [], dict(users={}, derived={})
+    for r in revs:
+        y = r[:4]
+        older = [x for x in revs if x <= r]
+        body = 'module f { namespace "urn:f"; prefix f; %s%s identity COMMON; identity ONLY%s; ' \
+               'typedef t { type string; units "rev%s"; } grouping g { leaf m%s { type string; } } }' % (
+                   "include fleg; " if leg_of == r else "", "".join("revision %s; " % x for x in reversed(older)), y, y, y)
+        texts.append(("f" + y, body))
+        expect["derived"][r] = {"f:COMMON": set(), "f:ONLY" + y: set()}
+    if leg_of:
+        texts.append(("fleg", 'submodule fleg { belongs-to f { prefix f; } identity LEGACY { base COMMON; } '
+                              'typedef tl { type int8; units "legacy"; } grouping gl { leaf mleg { type string; } } }'))
+        expect["derived"][leg_of]["f:COMMON"].add("f/fleg:LEGACY")
+        expect["derived"][leg_of]["f/fleg:LEGACY"] = set()
+    users = [(r, "u" + r[:4]) for r in revs if rnd.random() < 0.85] + [(None, "ub")]
+    if rnd.random() < 0.5:
+        users.append((rnd.choice(revs), "ux"))
+    for pin, name in users:
+        r = pin or revs[-1]
+        y = r[:4]
+        leg = leg_of == r
+        st = ['import f { prefix f; %s}' % ("revision-date %s; " % pin if pin else "")]
+        st += ["identity U1 { base f:ONLY%s; }" % y, "identity UC { base f:COMMON; }",
+               "leaf a { type identityref { base f:ONLY%s; } }" % y, "leaf b { type f:t; }", "container k { uses f:g; %s}" % ("uses f:gl; " if leg else "")]
+        expect["derived"][r]["f:ONLY" + y].add(name + ":U1")
+        expect["derived"][r]["f:COMMON"].add(name + ":UC")
+        if leg:
+            st += ["identity U2 { base f:LEGACY; }", "leaf c { type f:tl; }"]
+            expect["derived"][r]["f/fleg:LEGACY"].add(name + ":U2")
+            expect["derived"][r]["f:COMMON"].add(name + ":U2")
+        texts.append((name, 'module %s { namespace "urn:%s"; prefix %s; %s }' % (name, name, name, " ".join(st))))
+        expect["users"][name] = dict(rev=r, leg=leg)
+    return texts, expect
+
+
+def revfam_case(texts, order):
+    toks = ["process", "-", ",".join(["L%d" % i for i in range(len(texts))] + ["P"]), str(len(texts))]
+    for i in order:
+        toks += [sg.hx(texts[i][0] + ".yang"), sg.hx(texts[i][1])]
+    return " ".join(toks)
+
+
+def check_revfam(line, expect):
+    """None if every reference is bound to the revision its import denotes, else what is wrong"""
+    if not line.startswith("{"):
+        return "no dump: " + line[:100]
+    j = json.loads(line)
+    if any(l.startswith("err") for l in j["loads"]):
+        return "a text was rejected: %s" % j["loads"]
+    run = j["runs"][-1]
+    if run["errors"]:
+        return "Process reports %s" % run["errors"][:2]
+    derived = {}
+    for m in run["modules"]:
+        if m["name"] == "f":
+            derived.setdefault(m.get("rev"), {}).update({i["name"]: set(i["values"]) for i in m.get("identities") or []})
+    for m in run["modules"]:
+        if m["name"] == "fleg":
+            for r, d in expect["derived"].items():
+                if "f/fleg:LEGACY" in d:
+                    derived.setdefault(r, {}).update({i["name"]: set(i["values"]) for i in m.get("identities") or []})
+    for r, d in expect["derived"].items():
+        for k, v in d.items():
+            got = derived.get(r, {}).get(k)
+            if got != v:
+                return "derived identities of %s in revision %s: %s, expected %s" % (k, r, sorted(got) if got is not None else None, sorted(v))
+    for m in run["modules"]:
+        u = expect["users"].get(m["name"])
+        if not u:
+            continue
+        y = u["rev"][:4]
+        if m.get("imports") != ["f=f@" + u["rev"]]:
+            return "%s: import bound to %s, expected f@%s" % (m["name"], m.get("imports"), u["rev"])
+        kids = {c["name"]: c for c in m["tree"].get("children") or []}
+        if (kids["b"].get("type") or {}).get("units") != "rev" + y:
+            return "%s: leaf b has the typedef of %s, expected rev%s" % (m["name"], (kids["b"].get("type") or {}).get("units"), y)
+        got = sorted(c["name"] for c in kids["k"].get("children") or [])
+        want = sorted(["m" + y] + (["mleg"] if u["leg"] else []))
+        if got != want:
+            return "%s: container k has %s, expected %s (grouping of the wrong revision)" % (m["name"], got, want)
+        t = kids["a"].get("type") or {}
+        if t.get("idbase") != "f:ONLY" + y or set(t.get("idvalues") or []) != expect["derived"][u["rev"]]["f:ONLY" + y]:
+            return "%s: identityref a is based on %s with values %s" % (m["name"], t.get("idbase"), t.get("idvalues"))
+        if u["leg"] and (kids["c"].get("type") or {}).get("units") != "legacy":
+            return "%s: leaf c is not typed by the legacy submodule's typedef" % m["name"]
+    return None
+
+
+def run_revfam(res, tier, rnd, stats):
+    lines, exps = [], []
+    for _ in range(40 if tier == "quick" else 400):
+        texts, expect = gen_revfam(rnd)
+        n = len(texts)
+        orders = [list(range(n)), list(reversed(range(n)))] + [rnd.sample(range(n), n) for _ in range(6)]
+        for o in orders:
+            lines.append(revfam_case(texts, o))
+            exps.append((expect, [t[0] for t in texts], o))
+    go = lib.run_go(lines)
+    bad = 0
+    for l, g, (e, names, o) in zip(lines, go, exps):
+        why = check_revfam(g, e)
+        stats["revision_cases"] += 1
+        if why:
+            bad += 1
+            if bad <= 3:
+                res.violation("a reference through an import is not bound to the revision the import denotes (load order %s): %s"
+                              % ([names[i] for i in o], why[:300]), dict(kind="revisions", case=l, expect=_jsonable(e)))
+    return len(lines)
+
+
+def _jsonable(e):
+    return dict(users=e["users"], derived={r: {k: sorted(v) for k, v in d.items()} for r, d in e["derived"].items()})
 
 
 # ------------------------------------------------------------------------------------ run
@@ -719,8 +909,9 @@ def run(res, tier, seed, proof):
             continue
         judge(res, c, g, m, stats)
     metamorphic(res, cases, go, stats)
-    stats.update(include_nested=0, include_model_runs=0)
+    stats.update(include_nested=0, include_model_runs=0, revision_cases=0)
     n_inc, fams, inc_lines = run_include(res, tier, rnd, stats)
+    n_inc += run_revfam(res, tier, rnd, stats)
 
     def nontrivial(c):
         t = c.split()
@@ -782,6 +973,14 @@ def replay(rep, res):
                         dict(tree=b.get("tree"), identities=b.get("identities")))
         print("first difference:", d)
         return 1 if d else 0
+    if rep.get("kind") == "revisions":
+        g = lib.run_go([rep["case"]])[0]
+        e = rep["expect"]
+        e = dict(users=e["users"], derived={r: {k: set(v) for k, v in d.items()} for r, d in e["derived"].items()})
+        why = check_revfam(g, e)
+        print("impl :", g[:1500])
+        print("wrong:", why)
+        return 1 if why else 0
     if rep.get("kind") == "include-model":
         go = lib.run_go([rep["go_case"]])[0]
         ml = lib.run_ml([rep["case"]])[0]
